@@ -5,7 +5,7 @@
    what "written inline in the equivalent scope" means - and the text comes back
    as HTML, unescaped and once.  That the real engine behaves like these
    equations is what the inline-twin harness and the correspondence check test. *)
-From Plush Require Import model.Bytes model.Ast model.Parser model.Ctx model.Value model.Eval proofs.EvalProofs.
+From Plush Require Import model.Bytes model.Ast model.Parser model.Ctx model.Value model.Eval proofs.EvalProofs proofs.DataProofs.
 
 (* BlockWith(ctx): the helper gets the sink applied to the value of the block
    evaluated in ctx - exactly what the same statements render to there - and the
@@ -65,6 +65,26 @@ Theorem C17_block_with_data_inline : forall G fuel st blk parent data st1 n body
 Proof. exact block_in_child_inline. Qed.
 Print Assumptions C17_block_with_data_inline.
 
+(* the data BINDS every key it holds in that fresh child - a key whose value is nil
+   included: inside, a name reads as the data gave it (the last entry for the key),
+   whatever an outer scope holds under that name, exactly as after a let of the
+   same names; a name the data does not mention reads through to the parent *)
+Theorem C17_data_binds_every_key : forall G st parent st1 n d k,
+  cnew_of G st parent = (st1, n) ->
+  Ctx.value value VNil (sctx (set_all st1 n d)) n k =
+  match alookup value k (rev d) with
+  | Some v => v
+  | None => Ctx.value value VNil (sctx st1) n k
+  end.
+Proof. exact data_binds_child. Qed.
+Print Assumptions C17_data_binds_every_key.
+
+Theorem C17_nil_data_hides_outer_name : forall G st parent st1 n d k,
+  cnew_of G st parent = (st1, n) -> alookup value k (rev d) = Some VNil ->
+  Ctx.value value VNil (sctx (set_all st1 n d)) n k = VNil.
+Proof. exact nil_data_hides_outer_child. Qed.
+Print Assumptions C17_nil_data_hides_outer_name.
+
 (* partial(name, data) without a layout: the feeder's text, parsed and executed by
    the same evaluator in a fresh child of the caller's scope holding data; its
    output comes back verbatim as HTML (unescaped, once) and the caller's scope
@@ -119,6 +139,17 @@ Example C17_partial_renders_inline_text :
                    [(hx "7061727469616c466565646572", DGo 14%N [])]
                    [(hx "70", hx "5b3c253d2077686f20253e5d")] (ObsOk []) []) with
   | OOk out _ => out = hx "415b57266c743b5d42"
+  | _ => False
+  end.
+Proof. vm_compute. reflexivity. Qed.
+
+(* data {who: nil} hides the outer who inside the partial; data that does not mention who does not *)
+Example C17_nil_data_in_a_partial :
+  match run_case [hx "7061727469616c"]
+          (mkrcase (hx "3c25206c65742077686f203d20226f757465722220253e3c253d207061727469616c282270222c207b77686f3a206e696c7d2920253e7c3c253d207061727469616c282270222c207b783a206e696c7d2920253e")
+                   [(hx "7061727469616c466565646572", DGo 14%N [])]
+                   [(hx "70", hx "5b3c253d206966202877686f29207b20253e573c25207d20656c7365207b20253e2d3c25207d20253e5d")] (ObsOk []) []) with
+  | OOk out _ => out = hx "5b2d5d7c5b575d"
   | _ => False
   end.
 Proof. vm_compute. reflexivity. Qed.
